@@ -882,8 +882,13 @@ theorem euler_stock_succ (hG : X.GridOK) (hA : X.Acyclic) (hR : X.RunsGraph) {n 
     have := hvm _ hFm
     simp only [Ctx.eu] at this
     rw [this, hem]
-  have hw' := hw
-  simp only [euler, hfuel, eulerF, hel, hs', hcongr] at hw'
+  have hw' : eulerF X.C X.M X.tv (((k + 1) * (X.M.elems.length + 1) + X.M.elems.length) + 1) n (k + 1) = some w := by
+    have h0 := hw
+    simp only [euler] at h0
+    rw [hfuel] at h0
+    exact h0
+  simp only [eulerF, hel, hs'] at hw'
+  rw [hcongr] at hw'
   cases hd : net X.C (fun m => euler X.C X.M X.tv m k) ins outs with
   | none => simp [hd] at hw'
   | some d =>
